@@ -305,10 +305,12 @@ def random_module(rng: random.Random, max_claims=6, with_imports=True, syms=SYMS
                 plug = P.Exists(rng.choice((1, 1, 2)), body)
             else:
                 plug = P.MetaVar(rng.choice((0, 1, 2)), e_fresh=tuple(P.EVar(i) for i in (0, 1) if rng.random() < 0.6)) if r_ < 0.7 else p_()
-            add(mod.dynamic_inst(mod.exists_quantifier(), {0: plug}), 'dynamic_inst(exists_quantifier)')
-            tags.add('quantifier')
-            if isinstance(plug, P.MetaVar) and plug.e_fresh:
-                tags.add('quantifier_with_fresh_declaring_plug')
+            # (phi0[x1/x0] with phi0 := psi[t/x0] would be a redundant substitution: x0 is fresh in psi[t/x0] - the filter knows)
+            if admissible_inst(mod.exists_quantifier().conc, {0: plug}):
+                add(mod.dynamic_inst(mod.exists_quantifier(), {0: plug}), 'dynamic_inst(exists_quantifier)')
+                tags.add('quantifier')
+                if isinstance(plug, P.MetaVar) and plug.e_fresh:
+                    tags.add('quantifier_with_fresh_declaring_plug')
         except AssertionError:
             pass
     # a schema instantiated through a map whose keys are inserted in shuffled order
@@ -322,8 +324,9 @@ def random_module(rng: random.Random, max_claims=6, with_imports=True, syms=SYMS
             delta = {i: p_() for i in keys}
             if len(keys) >= 2 and keys != sorted(keys):
                 tags.add('unsorted_instantiation_keys')
-            add(mod.dynamic_inst(base, delta), f'dynamic_inst({bd}, keys={keys})')
-            tags.add('dynamic_inst')
+            if admissible_inst(base.conc, delta):
+                add(mod.dynamic_inst(base, delta), f'dynamic_inst({bd}, keys={keys})')
+                tags.add('dynamic_inst')
         except AssertionError:
             pass
     if 'mp_axioms' in tags:
